@@ -272,8 +272,10 @@ def run_call(cid):
 # ------------------------------------------------------------------------------------------
 # fresh-interpreter baselines (computed by the driver, once per call, twice)
 
-def _spawn(cid, gseed=None):
+def _spawn(cid, gseed=None, hashseed=None):
     env = dict(os.environ)
+    if hashseed is not None:
+        env['PYTHONHASHSEED'] = str(hashseed)        # the harness pins the salt of str / bytes hashing for itself; a result may not depend on it
     root = os.path.dirname(os.path.dirname(os.path.dirname(os.path.abspath(__file__))))
     p = subprocess.run([sys.executable, '-W', 'ignore', '-m', 'mc.props.c10', cid] + ([str(gseed)] if gseed is not None else []),
                        cwd=root, env=env, capture_output=True, text=True)
@@ -284,8 +286,8 @@ def _spawn(cid, gseed=None):
 
 def baselines(ids):
     with ThreadPoolExecutor(max_workers=16) as ex:
-        a = list(ex.map(_spawn, ids))
-        b = list(ex.map(_spawn, ids))
+        a = list(ex.map(lambda i: _spawn(i, None, 101), ids))
+        b = list(ex.map(lambda i: _spawn(i, None, 202), ids))
     return {cid: (x, y) for cid, x, y in zip(ids, a, b)}
 
 
@@ -356,6 +358,25 @@ def check_object(c):
               '%s gives different results for equal generator objects under different global states' % name, ['call=' + name])
     res.check(len({s for _, s in outs}) == 1, 'object.final_state', c,
               '%s leaves equal generator objects in different states' % name, ['call=' + name])
+    # equal STATE, different lineage: a state copied into a generator created from another seed, and a generator that has spawned children
+    # before; the results and the final states are functions of the state alone
+    res.ev()
+    g1 = np.random.default_rng(c['gen_seed'])
+    g2 = np.random.default_rng(987654321)
+    g2.bit_generator.state = g1.bit_generator.state
+    g3 = np.random.default_rng(c['gen_seed'])
+    try:
+        g3.spawn(2)
+    except Exception:
+        pass
+    lin = []
+    for g in (g1, g2, g3):
+        with warnings.catch_warnings():
+            warnings.simplefilter('ignore')
+            o = obs(fn(g))
+        lin.append((o, json.dumps(g.bit_generator.state, sort_keys=True, default=str)))
+    res.check(len({o for o, _ in lin}) == 1 and len({s for _, s in lin}) == 1, 'object.lineage', c,
+              '%s gives different results (or final states) for generator objects in the same state that differ in how they were created' % name, ['call=' + name])
     # an int seed must not depend on the global state either, and repeated calls agree
     for s in SEEDS:
         vals = set()
@@ -388,7 +409,14 @@ def check_baseline(c):
     if a == b:
         res.ok('fresh.same')
         return res
-    g0, g0b, g1 = _spawn(cid, 0), _spawn(cid, 0), _spawn(cid, 1)
+    # the two baselines ran under different hash salts (PYTHONHASHSEED 101 / 202): same global seed, same salt twice and the other salt once
+    h1, h1b, h2 = _spawn(cid, 0, 101), _spawn(cid, 0, 101), _spawn(cid, 0, 202)
+    res.tr(3)
+    if h1 == h1b and h1 != h2:
+        res.fail('fresh.hashsalt', c, '%s gives different results in interpreters that differ only in their hash salt (PYTHONHASHSEED): the result '
+                 'depends on hash() of a str / bytes / tuple thereof, which is neither an argument nor the seed' % cid, ['call=' + cid.split('(')[0], 'same'])
+        return res
+    g0, g0b, g1 = _spawn(cid, 0, 101), _spawn(cid, 0, 101), _spawn(cid, 1, 101)
     res.tr(3)
     if g0 == g0b:
         res.check(g0 == g1 and False, 'fresh.same', c,
@@ -398,7 +426,7 @@ def check_baseline(c):
     else:
         # not the global generator.  Is it the environment?  The control (the same kinds of LAPACK / BLAS work without any library code) in
         # two more fresh interpreters decides: reproducible control => the call has a hidden input (entropy, time, addresses) => violation
-        c1, c2 = _spawn('__control__'), _spawn('__control__')
+        c1, c2 = _spawn('__control__', None, 101), _spawn('__control__', None, 202)
         res.tr(2)
         if c1 == c2 and not c1.startswith('ERROR'):
             res.fail('fresh.unstable', c, '%s gives different results in fresh interpreters even with the global generator seeded identically, '
@@ -530,6 +558,28 @@ def check_recall(c):
         res.check(s4 == s5 and e4 == e5, 'recall.after_edit', case,
                   lambda: '%s(%s): after an in-place edit of the argument arrays the call on the same objects %s, on equal new objects %s' % (
                       name, label, 'raised ' + e4 if e4 else 'gives ' + str(s4)[:12], 'raised ' + e5 if e5 else 'gives ' + str(s5)[:12]),
+                  tags + ['recall'])
+        # (3) arguments that are freed between calls: new objects with OTHER values may land on the addresses of dead ones; a result keyed
+        # by id() of an argument shows as a difference between a pass that keeps every argument alive and a pass that rebinds one name
+        def variant(t):
+            _, a, k = fresh(ci)
+            for _ in range(t):
+                _edit(a), _edit(k)
+            return a, k
+        keep, ref_sigs = [], []
+        for t in range(4):
+            a, k = variant(t)
+            keep.append((a, k))
+            ref_sigs.append(attempt(a, k))
+        del keep
+        got_sigs = []
+        for rnd in range(2):
+            for t in range(4):
+                a, k = variant(t)
+                got_sigs.append(attempt(a, k))
+                del a, k
+        res.check(got_sigs == ref_sigs * 2, 'recall.rebinding', case,
+                  lambda: '%s(%s): results differ between a pass that keeps all argument objects alive and a pass that frees each one before the next is built' % (name, label),
                   tags + ['recall'])
         res.nt((name, label, L, rk))
     return res
